@@ -55,6 +55,7 @@ class Ctl:
         self.in_disp = self.in_qlen = self.locks = 0
         self.len_quiet = False
         self.in_qapp, self.qapp_last, self.qapp_counted = False, None, False
+        self.in_maint = False
 
 
 class Sched:
@@ -228,13 +229,44 @@ def _timeout_kind(t):
     return 'none' if t is None or t < 0 else ('zero' if t == 0 else 'pos')
 
 
+def _ctrl_fd():
+    """read end of the control pipe of the poller of the running case (created through the os double)"""
+    return PIPES[-1][0] if PIPES else None
+
+
+def _fileno(x):
+    try:
+        return x if isinstance(x, int) else x.fileno()
+    except Exception:
+        return None
+
+
+def _safe(pred):
+    """an enabledness predicate evaluated by the scheduler must not raise: a call that would fail returns at once"""
+    def p():
+        try:
+            return pred()
+        except Exception:
+            return True
+    return p
+
+
 class FakePollObj:
     def __init__(self, real, is_epoll):
         self._real = real
         self._is_epoll = is_epoll
+        self._registered = set()
 
     def __getattr__(self, name):
         return getattr(self._real, name)
+
+    def register(self, fd, *a):
+        self._registered.add(_fileno(fd))
+        return self._real.register(fd, *a)
+
+    def unregister(self, fd):
+        self._registered.discard(_fileno(fd))
+        return self._real.unregister(fd)
 
     def poll(self, timeout=None):
         s = CUR
@@ -242,9 +274,10 @@ class FakePollObj:
             c = s.me()
             if c is not None:
                 c.wait_timeout = timeout
-            if s.park('select', lambda: bool(self._real.poll(0)) or _timeout_kind(timeout) == 'zero'):
+            if s.park('select', _safe(lambda: bool(self._real.poll(0)) or _timeout_kind(timeout) == 'zero')):
                 r = self._real.poll(0)
-                s.emit(['Select', 1 if r else 0])
+                ctrl = _ctrl_fd()
+                s.emit(['Select', 1 if ctrl in self._registered else 0, 1 if any(f == ctrl for f, _ in r) else 0])
                 return r
             if s.abort:
                 return self._real.poll(0)
@@ -264,15 +297,25 @@ class FakeSelect:
         s = CUR
         if s is not None:
             c = s.me()
+            if c is not None and c.in_maint:
+                return real_select.select(r, w, x, 0)      # probes of the descriptor maintenance: not a wait
             if c is not None:
                 c.wait_timeout = timeout
 
             def ready():
                 a, b, _ = real_select.select(r, w, x, 0)
                 return bool(a or b) or _timeout_kind(timeout) == 'zero'
-            if s.park('select', ready):
-                res = real_select.select(r, w, x, 0)
-                s.emit(['Select', 1 if (res[0] or res[1]) else 0])
+            if s.park('select', _safe(ready)):
+                ctrl = _ctrl_fd()
+                try:
+                    res = real_select.select(r, w, x, 0)
+                except Exception:
+                    # a registered descriptor went stale: the caller weeds out its lists (until it is done handling)
+                    s.emit(['Preen'])
+                    c.in_maint = True
+                    raise
+                s.emit(['Select', 1 if any(_fileno(f) == ctrl for f in r) else 0,
+                        1 if any(_fileno(f) == ctrl for f in res[0]) else 0])
                 return res
             return real_select.select(r, w, x, 0 if s.abort else 0.05)
         if timeout is None:
@@ -401,6 +444,9 @@ def _handling_read(obj, d):
 
 
 def _handling_write(obj, old, v):
+    s, c = _ctl()
+    if c is not None:
+        c.in_maint = False
     _visible(['Clr'] if v is None else ['SetH'])
 
 
@@ -896,6 +942,24 @@ def run_case(case):
     poller = None
     if mode != 'fallback':
         poller = getattr(cpollers, POLLERS[mode])().register(m)
+    socks = []
+    hist = case.get('hist') or []
+    if poller is not None and hist:
+        import socket as _socket
+        sink = [c for c in m.components if isinstance(c, Sink)][0]
+        a, b = _socket.socketpair()          # never readable: stays registered, keeps the wait blocking
+        poller.addReader(sink, a)
+        socks += [a, b]
+        if 'discard' in hist:                # registered and discarded properly (control)
+            c1, d1 = _socket.socketpair()
+            poller.addReader(sink, c1)
+            poller.discard(c1)
+            socks += [c1, d1]
+        if 'stale' in hist:                  # closed behind the poller's back while still registered
+            e1, f1 = _socket.socketpair()
+            poller.addReader(sink, e1)
+            e1.close()
+            socks += [f1]
     for _ in range(6):
         m.flush()
     # a fresh queue object state the model starts from: nothing queued
@@ -988,6 +1052,11 @@ def run_case(case):
                 real_os.close(fd)
             except OSError:
                 pass
+    for sk in socks:
+        try:
+            sk.close()
+        except Exception:
+            pass
     del PIPES[:]
     obs = {'verdict': verdict, 'log': s.log, 'trace': s.trace, 'steps': s.nsteps,
            'errors': list(s.errors), 'teardown': teardown, 'tsteps': s.tsteps,
@@ -1128,7 +1197,9 @@ def coq_lbl(l):
     if k == 'Wait':
         return '(AWait %s)' % ('true' if l[1] else 'false')
     if k == 'Select':
-        return '(ASelect %s)' % ('true' if l[1] else 'false')
+        return '(ASelect %s %s)' % ('true' if l[1] else 'false', 'true' if l[2] else 'false')
+    if k == 'Preen':
+        return 'APreen' 
     raise ValueError(l)
 
 
@@ -1167,12 +1238,12 @@ class C03(Prop):
         self._obs = {}
 
     # ---- cases
-    def measure(self, mode, timer):
+    def measure(self, mode, timer, hist=None):
         """sizes of the sweep ranges for one configuration, from the undisturbed run: visible loop actions up to the
         first park (n1) and while processing the first wake-up (n2); position of the dispatcher call for
         generate_events in that second phase (jg) and the number of scheduler steps from there to the park (rg);
         scheduler steps of the whole phases (r1, r2)"""
-        o = run_case({'mode': mode, 'timer': timer, 'threads': [2], 'tmo': 0, 'sched': {
+        o = run_case({'mode': mode, 'timer': timer, 'threads': [2], 'tmo': 0, 'hist': hist, 'sched': {
             'kind': 'seg', 'order': [0, 1], 'segs': [[0, -1], [1, -2], [0, -1], [1, -1], [0, -1]]}})
         tr, ts = o['trace'], o['tsteps']
         try:
@@ -1234,6 +1305,21 @@ class C03(Prop):
                 for r in range(0, z['r2'] + 2):    # the same cut at every position of the second tick, loop continues freely
                     for i in range(1, 15):
                         sw(mode, timer, [[0, -1], [1, -2], [0, r], [1, i], [0, rng.randint(0, 12)], [1, -1], [0, -1]])
+        # poller histories: an idle descriptor stays registered, one is discarded properly, and (Select) one is closed
+        # behind the poller's back so that the first select() fails and the descriptor lists are weeded out once; then
+        # a whole fire() before every access of the loop thread in the ticks before and after the first wake-up
+        hcfgs = [('select', False, ['discard', 'stale']), ('select', True, ['discard', 'stale']),
+                 ('poll', False, ['discard']), ('epoll', False, ['discard'])] if with_sweep else []
+        for mode, timer, hist in hcfgs:
+            z = self.measure(mode, timer, hist)
+            sizes['%s%s+%s' % (mode, '+timer' if timer else '', '+'.join(hist))] = z
+            for r in range(0, z['r1'] + 2):
+                sweep.append({'mode': mode, 'timer': timer, 'threads': [2], 'tmo': 0, 'hist': hist, 'sched': {
+                    'kind': 'seg', 'order': [0, 1], 'segs': [[0, r], [1, -2], [0, -1], [1, -1], [0, -1]]}})
+            for r in range(0, z['r2'] + 2):
+                sweep.append({'mode': mode, 'timer': timer, 'threads': [2], 'tmo': 0, 'hist': hist, 'sched': {
+                    'kind': 'seg', 'order': [0, 1],
+                    'segs': [[0, -1], [1, -2], [0, r], [1, -2], [0, -1], [1, -1], [0, -1]]}})
         if with_sweep:
             self.stats['sweep_sizes'] = sizes
             self.stats['sweep_cases'] = len(sweep)
@@ -1262,8 +1348,11 @@ class C03(Prop):
                 sch = {'kind': 'pre', 'order': order, 'sw': sw}
             else:
                 sch = {'kind': 'rnd', 'seed': rng.randint(0, 10 ** 9), 'stick': rng.choice([0.5, 0.8, 0.9, 0.95])}
+            hist = None
+            if mode != 'fallback' and rng.random() < 0.4:
+                hist = ['discard', 'stale'] if mode == 'select' else ['discard']
             cases.append({'mode': mode, 'timer': timer, 'threads': threads, 'sched': sch,
-                          'tmo': rng.choice([0, 0, 1, 2])})
+                          'tmo': rng.choice([0, 0, 1, 2]), 'hist': hist})
         return cases
 
     def search(self, rng, tier):
@@ -1299,7 +1388,7 @@ class C03(Prop):
             st['teardown_problems'] = st.get('teardown_problems', 0) + 1
         e = 'end_' + obs['verdict']['end']
         st[e] = st.get(e, 0) + 1
-        mk = 'mode_' + case['mode'] + ('+timer' if case.get('timer') else '')
+        mk = 'mode_' + case['mode'] + ('+timer' if case.get('timer') else '') + ('+hist' if case.get('hist') else '')
         st[mk] = st.get(mk, 0) + 1
         sk = 'sched_' + case['sched']['kind']
         st[sk] = st.get(sk, 0) + 1
